@@ -90,6 +90,16 @@ def crystal_library():
     # omega-Ti like: two equivalent sites first, the inequivalent one LAST
     L['omega'] = lambda: _c(a([[1., 0.5, 0.], [0., np.sqrt(0.75), 0.], [0., 0., 0.612]]),
                             [a([1. / 3, 1. / 3, 0.5]), a([2. / 3, 2. / 3, 0.5]), a([0., 0., 0.])])
+    # tetragonal cell, four atoms on a 4_1 positional helix, NON-COLLINEAR vector spins winding against / with the helix
+    def _helix(w):
+        def Rz(k):
+            c_, s_ = np.cos(0.5 * np.pi * k), np.sin(0.5 * np.pi * k)
+            return a([[c_, -s_, 0.], [s_, c_, 0.], [0., 0., 1.]])
+        pos = [a([0.25, 0., 0.]), a([0., 0.25, 0.25]), a([-0.25, 0., 0.5]), a([0., -0.25, 0.75])]
+        s0 = a([1., 0.3, 0.5])
+        return _c(np.diag([1., 1., 1.6]), [pos], spins=[[np.dot(Rz(w * k), s0) for k in range(4)]])
+    L['helix-spin-against'] = lambda: _helix(-1)
+    L['helix-spin-with'] = lambda: _helix(1)
     L['fcc-nosym'] = lambda: _c(0.5 * a([[0., 1., 1.], [1., 0., 1.], [1., 1., 0.]]), [a([0., 0., 0.])], NOSYM=True)
     L['hcp-nosym'] = lambda: _c(a([[0.5, 0.5, 0.], [-np.sqrt(0.75), np.sqrt(0.75), 0.], [0., 0., np.sqrt(8. / 3.)]]),
                                 [a([1. / 3, 2. / 3, 0.25]), a([2. / 3, 1. / 3, 0.75])], NOSYM=True)
